@@ -175,7 +175,7 @@ func (p proxyHandler) tunnel(name string, rw http.ResponseWriter, req *http.Requ
 			brw:   brw,
 			conn:  conn,
 		}
-		if err := pc.writeResponse(res); err != nil {
+		if err := pc.writeTunnelResponse(res); err != nil {
 			return err
 		}
 
@@ -407,7 +407,5 @@ func (p proxyHandler) writeResponse(rw http.ResponseWriter, res *http.Response) 
 		}
 	}
 
-	if !skipTraceWroteResponse(res, err) {
-		p.traceWroteResponse(res, err)
-	}
+	p.traceWroteResponse(res, err)
 }
